@@ -49,7 +49,7 @@ THEOREMS += ["OdxVerif.Codec." + t for t in [
     'Comp.KOk.ofKeyFree', 'Comp.kstruct_kok', 'KItems.goodS', 'KItems.dec_consistent', 'Comp.ofObjValue_keyFree',
     'Comp.ofObjConst_keyFree', 'KeyDop.identical', 'KeyDop.linear', 'KeyDop.placeholder_none', 'KeyDop.placeholder_some',
     'KeyDop.decodeParam_eq', 'lkExKeyItems_ok', 'lkExKeyItems_side', 'lkExStruct_ok', 'lkExNestItems_ok', 'lkExNestItems_side',
-    'lkExKeyB_keyDop', 'lkExByteItems_ok', 'lkExByteItems_side']]
+    'lkExKeyB_keyDop', 'lkExByteItems_ok', 'lkExByteItems_side', 'C01_lengthkey_shadow_counterexample']]
 RULE = ("well-formed descriptions (envelope wf of DESIGN §6/C01, by construction in harness/odxgen/gen.py) x canonical values "
         "(odxgen/values.py): corpus of past failures; every BYTE-SIZE structure size x offset; every (integer type, encoding, byte order, "
         "bit length, bit position) standard-length DOP with boundary values; floats/strings/byte fields x encodings x byte orders; random "
